@@ -60,7 +60,10 @@ def _mkvar(rng, name, vd, dl, vi, masked):
     attrs = rng.sample(['units', 'long_name', 'var_desc', 'note'], rng.randint(0, 3))
     if masked:
         attrs.append('fill_value')      # set by createVariable(fill_value=...)
-    return dict(name=name, dims=list(vd), dtype=rng.choice(DTYPES), masked=masked, attrs=attrs, data=data)
+    out = dict(name=name, dims=list(vd), dtype=rng.choice(DTYPES), masked=masked, attrs=attrs, data=data)
+    if masked and rng.random() < 0.25:
+        out['fill0'] = True             # a fill value of zero (counts, class codes; the data tokens are never 0)
+    return out
 
 
 def drop_fill_attrs(rng, spec, prob=0.4):
@@ -95,7 +98,7 @@ def build(spec, cls=None):
                 # a masked variable without any fill attribute: built from masked values (as many readers do)
                 var = f.createVariable(v['name'], v['dtype'], tuple(v['dims']), values=arr)
             else:
-                var = f.createVariable(v['name'], v['dtype'], tuple(v['dims']), fill_value=-999)
+                var = f.createVariable(v['name'], v['dtype'], tuple(v['dims']), fill_value=0 if v.get('fill0') else -999)
                 var[...] = arr
         else:
             var = f.createVariable(v['name'], v['dtype'], tuple(v['dims']))
